@@ -11,6 +11,7 @@ import (
 	"fmt"
 	"io"
 	"log/slog"
+	"os"
 	"runtime"
 	"strings"
 	"time"
@@ -128,7 +129,7 @@ type opObs struct {
 
 func (o opSpec) family() string {
 	switch o.Op {
-	case "ad", "adraw", "adskip":
+	case "ad", "adraw", "adrawbody", "adskip":
 		return "classad"
 	}
 	return "string"
@@ -174,6 +175,9 @@ func doOp(m *message.Message, o opSpec) ([]byte, bool, error) {
 		return nil, false, err
 	case "adraw":
 		_, err := m.GetClassAdRaw(ctx)
+		return nil, false, err
+	case "adrawbody":
+		_, err := m.GetClassAdRawBody(ctx, int(o.N))
 		return nil, false, err
 	case "adskip":
 		return nil, false, m.SkipClassAdRaw(ctx)
@@ -355,6 +359,8 @@ func opTerm(o opSpec, ob *opObs) string {
 		return "ORemain"
 	case "adraw":
 		return "OAdRaw"
+	case "adrawbody":
+		return "(OAdRawBody " + core.Z(o.N) + ")"
 	case "adskip":
 		return "OAdSkip"
 	case "idstr":
@@ -374,18 +380,80 @@ func valTerm(o outcome) string {
 	return "None"
 }
 
+func msgBytes(mc *msgCase) int {
+	n := 0
+	for _, f := range mc.Frames {
+		n += len(f.Data)
+	}
+	return n
+}
+
+// pMsg / pWire / pText / pBlob / pSci run a case in the isolated probe process.
+func pMsg(mc *msgCase) ([]opObs, []failure) {
+	mc.Kind = "msg"
+	r := runIsolated(mc, fmt.Sprintf("%v enc=%v", mc.Ops, mc.Enc), msgBytes(mc))
+	if r.MsgDepth > maxMsgDepthSeen {
+		maxMsgDepthSeen = r.MsgDepth
+	}
+	return r.Msg, withErr(r)
+}
+func pWire(wc *wireCase) (wireObs, []failure) {
+	wc.Kind = "wire"
+	n := 0
+	for _, sg := range wc.Data {
+		n += len(sg.Lit) + sg.Len
+	}
+	r := runIsolated(wc, fmt.Sprintf("%s %v", wc.Op, wc.Ops), n)
+	if r.Wire == nil {
+		return wireObs{out: outcome{Cls: 8}}, withErr(r)
+	}
+	if r.Wire.depth > maxDepthSeen {
+		maxDepthSeen = r.Wire.depth
+	}
+	return *r.Wire, withErr(r)
+}
+func pText(tc *textCase) (textRes, []failure, bool) {
+	tc.Kind = "text"
+	r := runIsolated(tc, tc.Fn, len(tc.In))
+	if r.Text == nil {
+		return textRes{}, withErr(r), false
+	}
+	return *r.Text, withErr(r), true
+}
+func pBlob(tc *textCase) (*blobObs, *outcome, []failure) {
+	tc.Kind = "text"
+	r := runIsolated(tc, "NewStreamWithCryptoState", len(tc.In))
+	return r.Blob, r.Out, withErr(r)
+}
+func pSci(sc *sciCase) []failure {
+	sc.Kind = "sci"
+	return withErr(runIsolated(sc, "exchangeSciToken(server)", sc.Supplied+4))
+}
+func withErr(r jobResult) []failure {
+	if r.Err != "" {
+		return append(r.Fails, failure{"harness", r.Err})
+	}
+	return r.Fails
+}
+
 // oracleMsgCase runs the direct oracle only (no Coq case).
 func oracleMsgCase(c *core.Ctx, mc *msgCase) {
 	if aborted {
 		return
 	}
+	if poisoned["msg-"+mc.Ops[0].Op] {
+		return
+	}
 	mc.Kind = "msg"
-	_, fails := runMsg(mc)
+	_, fails := pMsg(mc)
 	c.OracleCheck()
 	c.Evaluated(1)
 	c.Count("msg-oracle-only-" + mc.Ops[0].Op)
 	for _, f := range fails {
 		c.OracleFail(f.key, f.desc, mc)
+		if f.key == "crash" {
+			poisoned["msg-"+mc.Ops[0].Op] = true
+		}
 	}
 }
 
@@ -393,13 +461,19 @@ func addMsgCase(c *core.Ctx, mc *msgCase) {
 	if aborted {
 		return
 	}
+	if poisoned["msg-"+mc.Ops[0].Op] {
+		return
+	}
 	mc.Kind = "msg"
-	obs, fails := runMsg(mc)
+	obs, fails := pMsg(mc)
 	c.OracleCheck()
 	for _, f := range fails {
 		c.OracleFail(f.key, f.desc, mc)
+		if f.key == "crash" { // the same reader would only die again on the next hostile input
+			poisoned["msg-"+mc.Ops[0].Op] = true
+		}
 	}
-	if aborted {
+	if aborted || obs == nil {
 		return
 	}
 	var lens []string
@@ -855,6 +929,30 @@ func genQuotedValues(c *core.Ctx) {
 	}
 }
 
+// genRawBody: GetClassAdRawBody is an entry point of its own (the caller has already
+// consumed the count): every hostile count against every amount of content.
+func genRawBody(c *core.Ctx) {
+	for _, enc := range []bool{false, true} {
+		for _, nExpr := range []int{0, 1, 3} {
+			var body []byte
+			for k := 0; k < nExpr; k++ {
+				body = append(body, wireStr(enc, []byte(exprPool[k]))...)
+			}
+			body = append(body, wireStr(enc, []byte("Machine"))...)
+			body = append(body, wireStr(enc, []byte("Job"))...)
+			for _, cnt := range []int64{-1 << 63, -1, 0, int64(nExpr) - 1, int64(nExpr), int64(nExpr) + 1, 1000, 100003, 4 << 20, 1<<31 - 1, 1 << 40, 1 << 58, 1 << 62, 1<<63 - 1} {
+				for _, in := range [][]byte{body, body[:len(body)/2], nil} {
+					mc := &msgCase{Enc: enc, Frames: mock.Cut(in, nil), Ops: []opSpec{{Op: "adrawbody", N: cnt}, {Op: "str"}}, Note: "raw body"}
+					if c.Rng.Intn(5) == 0 {
+						mc.Frames[len(mc.Frames)-1].EOM = false
+					}
+					addMsgCase(c, mc)
+				}
+			}
+		}
+	}
+}
+
 // genEmptyFrameRuns: long runs of zero-length partial frames in front of (and inside)
 // the data, through every reader: reassembly must stay iterative.
 func genEmptyFrameRuns(c *core.Ctx) {
@@ -905,6 +1003,9 @@ func gen(c *core.Ctx) error {
 		genQuotedValues(c)
 	}
 	if !aborted {
+		genRawBody(c)
+	}
+	if !aborted {
 		genEmptyFrameRuns(c)
 	}
 	if !aborted {
@@ -918,6 +1019,8 @@ func gen(c *core.Ctx) error {
 	}
 	c.Note(fmt.Sprintf("deepest call stack seen at a mock-stream ReadFrame: %d frames (oracle bound 64)", maxMsgDepthSeen))
 	c.Note(fmt.Sprintf("deepest call stack seen at a connection read: %d frames (oracle bound 64)", maxDepthSeen))
+	stopChild()
+	c.Note(fmt.Sprintf("decoder calls ran in isolated probe processes (address-space ceiling %d MiB); probe processes that died: %d", childAddressSpace>>20, crashes))
 	if aborted {
 		c.Note("generation stopped early: a call did not return within the spin bound (reported as an oracle failure)")
 	}
@@ -925,57 +1028,25 @@ func gen(c *core.Ctx) error {
 }
 
 func replay(raw json.RawMessage) error {
-	var k struct {
-		Kind string `json:"kind"`
-	}
-	if err := json.Unmarshal(raw, &k); err != nil {
+	var generic map[string]interface{}
+	if err := json.Unmarshal(raw, &generic); err != nil {
 		return err
 	}
-	switch k.Kind {
-	case "msg":
-		var mc msgCase
-		if err := json.Unmarshal(raw, &mc); err != nil {
-			return err
-		}
-		_, fails := runMsg(&mc)
-		if len(fails) > 0 {
-			return fmt.Errorf("%s: %s", fails[0].key, fails[0].desc)
-		}
-		return nil
-	case "wire":
-		var wc wireCase
-		if err := json.Unmarshal(raw, &wc); err != nil {
-			return err
-		}
-		_, fails := runWire(&wc)
-		if len(fails) > 0 {
-			return fmt.Errorf("%s: %s", fails[0].key, fails[0].desc)
-		}
-		return nil
-	case "sci":
-		var sc sciCase
-		if err := json.Unmarshal(raw, &sc); err != nil {
-			return err
-		}
-		if fails := runSci(&sc); len(fails) > 0 {
-			return fmt.Errorf("%s: %s", fails[0].key, fails[0].desc)
-		}
-		return nil
-	case "text":
-		var tc textCase
-		if err := json.Unmarshal(raw, &tc); err != nil {
-			return err
-		}
-		_, fails := runText(&tc)
-		if len(fails) > 0 {
-			return fmt.Errorf("%s: %s", fails[0].key, fails[0].desc)
-		}
-		return nil
+	defer stopChild()
+	r := runIsolated(json.RawMessage(raw), fmt.Sprint(generic["kind"]), len(raw))
+	if fails := withErr(r); len(fails) > 0 {
+		return fmt.Errorf("%s: %s", fails[0].key, fails[0].desc)
 	}
-	return fmt.Errorf("unknown case kind %q", k.Kind)
+	return nil
 }
 
 func main() {
+	if len(os.Args) >= 2 && os.Args[1] == "probe" {
+		slog.SetDefault(slog.New(slog.NewTextHandler(io.Discard, &slog.HandlerOptions{Level: slog.LevelError + 8})))
+		inChild = true
+		probeMain()
+		return
+	}
 	slog.SetDefault(slog.New(slog.NewTextHandler(io.Discard, &slog.HandlerOptions{Level: slog.LevelError + 8})))
 	core.Main("C13", gen, replay)
 }
